@@ -45,6 +45,21 @@ where
         let cpk_own = CL03CommitmentPublicKey::generate::<CS>(None, Some(n.max(1)));
         World { pk, sk, bases, cpk, cpk_own, n, _m: std::marker::PhantomData }
     }
+    /// A world over a FIXED issuer key pair (engine/clmc/fixtures/<suite>_keypair.json, made once by `clmc genkey <suite>` with the
+    /// real KeyPair::generate): lets the quick tier reach a larger ciphersuite, whose key generation alone takes minutes
+    /// with the generic-C GMP. Everything else (bases, commitment keys, signatures, every proof) is drawn afresh on every run.
+    /// The key is re-validated on load (N = p q, p != q safe primes of the suite's size); None = unusable fixture.
+    pub fn from_keypair_json(js: &str, n: usize) -> Option<World<CS>> where KeyPair<CL03<CS>>: DeserializeOwned {
+        let kp: KeyPair<CL03<CS>> = serde_json::from_str(js).ok()?;
+        let (sk, pk) = kp.into_parts();
+        let safe = |x: &Integer| x.is_probably_prime(30) != rug::integer::IsPrime::No && Integer::from(x - 1u32).div_exact_u(2).is_probably_prime(30) != rug::integer::IsPrime::No && x.significant_bits() == CS::SECPARAM + 1;
+        if Integer::from(&sk.p * &sk.q) != pk.N || sk.p == sk.q || !safe(&sk.p) || !safe(&sk.q) { return None; }
+        let bases = Bases::generate(&pk, n.max(1));
+        let cpk = CL03CommitmentPublicKey::generate::<CS>(Some(pk.N.clone()), Some(n.max(1)));
+        // a second, independently drawn commitment key over the issuer modulus stands in for the trusted party's (own modulus = another key generation)
+        let cpk_own = CL03CommitmentPublicKey::generate::<CS>(Some(pk.N.clone()), Some(n.max(1)));
+        Some(World { pk, sk, bases, cpk, cpk_own, n, _m: std::marker::PhantomData })
+    }
     pub fn phi(&self) -> Integer { (self.sk.p.clone() - 1u32) * (self.sk.q.clone() - 1u32) }
 }
 
